@@ -239,25 +239,9 @@ def newDerived (r : Registry) (entries : List (Sym × Sym × Int)) : Except ErrK
 described by its composing map and its quantity types -/
 def descOfSimple (q : QObj) : DObj := ⟨[(q.cat, q.unit, 1)], [(q.qtype, 1)]⟩
 
-/-- "Although passed as composing, it's a simple case": a single entry with exponent 1 -/
-def simpleCase : List (Sym × Sym × Int) → Option (Sym × Sym)
-  | [(c, u, e)] => if e = 1 then some (c, u) else none
-  | _ => none
-
-/-- `ObtainQuantity(OrderedDict)`: the simple case goes the way of `ObtainQuantity(unit, category)`;
-otherwise the cache key is the tuple of the entries IN THE ORDER GIVEN -/
-def obtainDict (s : CState) (entries : List (Sym × Sym × Int)) : CState × Except ErrKind DObj :=
-  match simpleCase entries with
-  | some (c, u) => ((obtain lg s false c u).1, exMap descOfSimple (obtain lg s false c u).2)
-  | none =>
-    match dcacheGet s.dcache entries with
-    | some d => (s, .ok d)
-    | none =>
-      match newDerived s.reg entries with
-      | .ok d => (⟨s.reg, s.memo, s.cache, (entries, d) :: s.dcache⟩, .ok d)
-      | .error e => (s, .error e)
-
-/-- the validation loop of `Quantity._CreateDerived` -/
+/-- the validation loop of `Quantity._CreateDerived`, which `ObtainQuantity` also runs on a miss of
+the derived key (fix 42c424f): `CheckQuantityTypeUnit(GetCategoryQuantityType(category), unit)` for
+every entry (no legacy fixing, the memo table is not touched) -/
 def validateEntries (r : Registry) : List (Sym × Sym × Int) → Except ErrKind Unit
   | [] => .ok ()
   | (c, u, _) :: rest =>
@@ -265,11 +249,37 @@ def validateEntries (r : Registry) : List (Sym × Sym × Int) → Except ErrKind
     | .error e => .error e
     | .ok ci => if quantityTypeUnitOk lg r ci.qtype u then validateEntries r rest else .error .units
 
+/-- what a miss of a derived key does: validate, then build the `Quantity` -/
+def newDerivedChecked (r : Registry) (entries : List (Sym × Sym × Int)) : Except ErrKind DObj :=
+  match validateEntries lg r entries with
+  | .error e => .error e
+  | .ok _ => newDerived r entries
+
+/-- "Although passed as composing, it's a simple case": a single entry with exponent 1 -/
+def simpleCase : List (Sym × Sym × Int) → Option (Sym × Sym)
+  | [(c, u, e)] => if e = 1 then some (c, u) else none
+  | _ => none
+
+/-- `ObtainQuantity(OrderedDict)`: the simple case goes the way of `ObtainQuantity(unit, category)`;
+otherwise the cache key is the tuple of the entries IN THE ORDER GIVEN; a hit is returned unchecked,
+a miss validates every entry before the quantity is built and stored (`cap`: the caption is `""`,
+which only shows in the key of the simple case: an empty caption is not appended to a derived key) -/
+def obtainDict (s : CState) (cap : Bool) (entries : List (Sym × Sym × Int)) : CState × Except ErrKind DObj :=
+  match simpleCase entries with
+  | some (c, u) => ((obtain lg s cap c u).1, exMap descOfSimple (obtain lg s cap c u).2)
+  | none =>
+    match dcacheGet s.dcache entries with
+    | some d => (s, .ok d)
+    | none =>
+      match newDerivedChecked lg s.reg entries with
+      | .ok d => (⟨s.reg, s.memo, s.cache, (entries, d) :: s.dcache⟩, .ok d)
+      | .error e => (s, .error e)
+
 /-- `Quantity.CreateDerived(category_to_unit_and_exps)` -/
 def createDerived (s : CState) (entries : List (Sym × Sym × Int)) : CState × Except ErrKind DObj :=
   match validateEntries lg s.reg entries with
   | .error e => (s, .error e)
-  | .ok _ => obtainDict lg s entries
+  | .ok _ => obtainDict lg s false entries
 
 inductive ProdOp
   | mul
@@ -318,6 +328,102 @@ def prodSimple (s : CState) (op : ProdOp) (a b : QObj) (x y : Rat) : CState × E
               | .mul => .ok (d, x * y')
               | .div => if y' = 0 then .error .other else .ok (d, x / y'))
 
+/-! ### Sum / Subtract on arbitrary (derived) operands -/
+
+inductive SumOp
+  | add
+  | sub
+deriving DecidableEq, Repr
+
+def SumOp.apply : SumOp → Rat → Rat → Rat
+  | .add, a, b => a + b
+  | .sub, a, b => a - b
+
+def lookupUsed : List (Sym × Sym) → Sym → Option Sym
+  | [], _ => none
+  | (k, v) :: rest, qt => if k = qt then some v else lookupUsed rest qt
+
+def ratPowNat (r : Rat) : Nat → Rat
+  | 0 => 1
+  | n + 1 => r * ratPowNat r n
+
+/-- `ratio ** exp` for an integer exponent -/
+def ratPow (r : Rat) (e : Int) : Rat := if 0 ≤ e then ratPowNat r e.toNat else ratPowNat (1 / r) (-e).toNat
+
+/-- `_ConvertMatchingExp(quantity_type, from_unit, to_unit, exp, value, in_derived)`: the plain
+conversion for equal units and for exponent 1 outside a derived quantity; inside a derived quantity
+(or with another exponent) the value is scaled by `(Convert(1.0) - Convert(0.0)) ** exp` — a unit
+with an offset is scaled, never shifted; with exponent 1 and no offset the plain conversion is used -/
+def convertMatchingExp (r : Registry) (qt fromU toU : Sym) (e : Int) (v : Rat) (inDerived : Bool) :
+    Except ErrKind Rat :=
+  if fromU = toU ∨ (e = 1 ∧ inDerived = false) then convert lg r qt fromU toU v
+  else
+    match convert lg r qt fromU toU 0 with
+    | .error err => .error err
+    | .ok zero =>
+      if e = 1 ∧ zero = 0 then convert lg r qt fromU toU v
+      else
+        match convert lg r qt fromU toU 1 with
+        | .error err => .error err
+        | .ok one => if one - zero = 0 ∧ e < 0 then .error .other else .ok (v * ratPow (one - zero) e)
+
+/-- one operand's pass of `_MatchQuantities`: the first unit seen for a quantity type is the
+reference one; a later entry of the same quantity type takes it and the value is converted.
+Returns the reference units, the converted value and the rewritten composing map.
+`inDerived` = the operand's map has more than one entry (`len(c) > 1`). -/
+def matchList (r : Registry) (inDerived : Bool) : List (Sym × Sym) → Rat → List (Sym × Sym × Int) →
+    Except ErrKind (List (Sym × Sym) × Rat × List (Sym × Sym × Int))
+  | used, v, [] => .ok (used, v, [])
+  | used, v, (c, u, e) :: rest =>
+    match getCategoryInfo r c with
+    | .error err => .error err
+    | .ok ci =>
+      match lookupUsed used ci.qtype with
+      | none =>
+        match matchList r inDerived (used ++ [(ci.qtype, u)]) v rest with
+        | .error err => .error err
+        | .ok (used', v', es) => .ok (used', v', (c, u, e) :: es)
+      | some uu =>
+        match convertMatchingExp lg r ci.qtype u uu e v inDerived with
+        | .error err => .error err
+        | .ok v1 =>
+          match matchList r inDerived used v1 rest with
+          | .error err => .error err
+          | .ok (used', v', es) => .ok (used', v', (c, uu, e) :: es)
+
+/-- `GetComposingUnitsJoiningExponents` -/
+def joinUnits : List (Sym × Sym × Int) → List (Sym × Int)
+  | [] => []
+  | (_, u, e) :: rest => addQt (joinUnits rest) u e
+
+/-- equality of the two `set(...)`s of (unit, exponent) pairs -/
+def sameSet (a b : List (Sym × Int)) : Bool := a.all (fun p => b.contains p) && b.all (fun p => a.contains p)
+
+/-- `_DoOperationWithSameQuantity` (Sum, Subtract) on two quantities given by their composing maps:
+equal quantities are combined directly; otherwise both maps are matched (on copies), both
+quantities are re-created from the matched maps (`CreateCopyInstance`, caption `""`, not validated)
+and the sets of joined units are compared -/
+def sumDerived (s : CState) (op : SumOp) (d1 d2 : DObj) (x y : Rat) : CState × Except ErrKind (DObj × Rat) :=
+  if d1.entries = d2.entries then (s, .ok (d1, op.apply x y))
+  else
+    match matchList lg s.reg (decide (1 < d1.entries.length)) [] x d1.entries with
+    | .error e => (s, .error e)
+    | .ok (used, x', es1) =>
+      match matchList lg s.reg (decide (1 < d2.entries.length)) used y d2.entries with
+      | .error e => (s, .error e)
+      | .ok (_, y', es2) =>
+        match (obtainDict lg s true es1).2 with
+        | .error e => ((obtainDict lg s true es1).1, .error e)
+        | .ok c1 =>
+          ((obtainDict lg (obtainDict lg s true es1).1 true es2).1,
+            match (obtainDict lg (obtainDict lg s true es1).1 true es2).2 with
+            | .error e => .error e
+            | .ok c2 =>
+              if sameSet (joinUnits c1.entries) (joinUnits c2.entries) then .ok (c1, op.apply x' y')
+              else if (joinUnits c1.entries).isEmpty then .ok (c2, op.apply x' y')
+              else if (joinUnits c2.entries).isEmpty then .ok (c1, op.apply x' y')
+              else .error .units)
+
 /-- read-only operations: closed expressions over plain data -/
 inductive Query
   | check (c u : Sym)                       -- db.CheckCategoryUnit(c, u)
@@ -337,6 +443,8 @@ inductive Query
   | prod (op : ProdOp) (c1 u1 c2 u2 : Sym) (x y : Rat)   -- Scalar(x, u1, c1) * or / Scalar(y, u2, c2)
   | derived (entries : List (Sym × Sym × Int))          -- ObtainQuantity(OrderedDict(entries))
   | createDerived (entries : List (Sym × Sym × Int))    -- Quantity.CreateDerived(OrderedDict(entries))
+  /-- `Scalar(ObtainQuantity(OrderedDict(e1)), x) + or - Scalar(ObtainQuantity(OrderedDict(e2)), y)` -/
+  | sumd (op : SumOp) (e1 e2 : List (Sym × Sym × Int)) (x y : Rat)
 deriving DecidableEq, Repr
 
 inductive Ans
@@ -404,8 +512,18 @@ def answer (s : CState) : Query → CState × Except ErrKind Ans
         ((prodSimple lg (obtain lg (obtain lg s false c1 u1).1 false c2 u2).1 op a b x y).1,
           exMap (fun t => .descValue t.1 t.2)
             (prodSimple lg (obtain lg (obtain lg s false c1 u1).1 false c2 u2).1 op a b x y).2)
-  | .derived entries => ((obtainDict lg s entries).1, exMap .desc (obtainDict lg s entries).2)
+  | .derived entries => ((obtainDict lg s false entries).1, exMap .desc (obtainDict lg s false entries).2)
   | .createDerived entries => ((createDerived lg s entries).1, exMap .desc (createDerived lg s entries).2)
+  | .sumd op e1 e2 x y =>
+    match (obtainDict lg s false e1).2 with
+    | .error e => ((obtainDict lg s false e1).1, .error e)
+    | .ok d1 =>
+      match (obtainDict lg (obtainDict lg s false e1).1 false e2).2 with
+      | .error e => ((obtainDict lg (obtainDict lg s false e1).1 false e2).1, .error e)
+      | .ok d2 =>
+        ((sumDerived lg (obtainDict lg (obtainDict lg s false e1).1 false e2).1 op d1 d2 x y).1,
+          exMap (fun t => .descValue t.1 t.2)
+            (sumDerived lg (obtainDict lg (obtainDict lg s false e1).1 false e2).1 op d1 d2 x y).2)
 
 /-- the cache-free meaning of a query: its answer on a database that has just been built from the
 same registry (empty memo tables) -/
